@@ -28,6 +28,8 @@
 (*   table_unfaithful     its table is not the bag it evaluates to         *)
 (*   print_wrote          asking for grounded p changed p's table          *)
 (*   other_table_touched  a table of no grounded predicate below p changed *)
+(*   extra_table_written  (informational, not a rejection) the table of     *)
+(*                        another grounded predicate was written, faithfully *)
 (*   rows                 the returned rows are not what p evaluates to    *)
 (*                        reading the tables                               *)
 (*   not_idempotent       Run(p);Run(p) changed the file or the rows       *)
@@ -71,11 +73,11 @@ Kind(p) ==
 
 Report(cs, kind, exp) ==
   /\ PrintT(<<"V", ToJson([tid |-> T.tid, step |-> st, a |-> E.a, p |-> E.p, kind |-> kind,
-                           ok |-> cs = <<>>,
-                           clause |-> IF cs = <<>> THEN "ok" ELSE cs[1].clause,
-                           on |-> IF cs = <<>> THEN <<>> ELSE cs[1].on,
+                           ok |-> Failing(cs) = <<>>,
+                           clause |-> IF Failing(cs) = <<>> THEN "ok" ELSE Failing(cs)[1].clause,
+                           on |-> IF Failing(cs) = <<>> THEN <<>> ELSE Failing(cs)[1].on,
                            all |-> cs, exp |-> exp])>>)
-  /\ IF cs = <<>> THEN TRUE ELSE TLCSet(1, TLCGet(1) + 1)
+  /\ IF Failing(cs) = <<>> THEN TRUE ELSE TLCSet(1, TLCGet(1) + 1)
 
 One(clause, on) == <<[clause |-> clause, on |-> on]>>
 
